@@ -203,6 +203,14 @@ class Heap:
         return ref, h
 
 
+DBL_MAX = z3.RealVal(2 ** 1024 - 2 ** 971)
+
+
+def float_in_range(v):
+    """a float value is a finite double"""
+    return z3.Implies(is_float(v), z3.And(V.r(v) <= DBL_MAX, V.r(v) >= -DBL_MAX))
+
+
 def wf_value(h, v):
     """Heap well-formedness instance for a value loaded from (or given with) heap h:
     container references are already allocated, lengths are non-negative."""
